@@ -711,6 +711,9 @@ func (g *gen) ctl() TNode {
 	}
 	if g.cfg.BreakN && c.Kind != "continue" && g.r.Rng.Intn(2) == 0 {
 		c.N = 1 + g.r.Rng.Intn(g.loops+1)
+		if g.r.Rng.Intn(10) == 0 {
+			c.N = 10 + g.r.Rng.Intn(3) // two digits: far beyond the nesting depth
+		}
 	}
 	if g.r.Rng.Intn(2) == 0 {
 		cd := g.cond()
@@ -777,9 +780,10 @@ func (g *gen) ctxset() TNode {
 	}
 	switch g.r.Rng.Intn(4) {
 	case 0:
-		n.Src = strconv.Itoa(g.r.Rng.Intn(50))
+		n.Src = strconv.Itoa(g.r.Rng.Intn(60) - 10)
 	case 1:
-		n.Src = `"` + pick(g.r, []string{"lit", "a b", "Q"}) + `"`
+		q := pick(g.r, []string{`"`, `"`, `'`}) // both quote characters make a literal
+		n.Src = q + pick(g.r, []string{"lit", "a b", "Q", "si", "x1"}) + q // (also texts that are names of variables)
 	default:
 		p := g.anyPath()
 		// a ctx variable assigned from a counter / loop counter aliases its storage (known finding F-ctx-alias): not generated here
@@ -791,7 +795,7 @@ func (g *gen) ctxset() TNode {
 			n.OK = "ok1"
 		}
 		if g.cfg.Mods && g.r.Rng.Intn(3) == 0 {
-			n.Mods = []ModCall{{Name: "default", Args: []string{`"dd"`}}}
+			n.Mods = []ModCall{{Name: "default", Args: []string{pick(g.r, []string{`"dd"`, `"d-d"`, `"5%"`, `-3`, `"n/a"`})}}}
 		}
 	}
 	return n
